@@ -481,8 +481,12 @@ class Interp:
                 return True
             if v.kind == 'pmap':
                 return self.ctx.branch(z3.Not(PMp.is_('pnil', v.t)))
-            if v.kind in ('idl', 'str', 'intlist'):
+            if v.kind in ('idl', 'str', 'intlist', 'bytes'):
                 return self.ctx.branch(z3.Not(IDL.is_('inil', v.t)))
+            if v.kind == 'plist':
+                return self.ctx.branch(z3.Not(PTLs.is_('ptnil', v.t)))
+            if v.kind == 'pclaims':
+                return self.ctx.branch(z3.Not(PCLs.is_('pcnil', v.t)))
             if v.kind == 'intset':
                 try:
                     return bool(concrete_intset(v.t))
@@ -491,6 +495,8 @@ class Interp:
             raise Unsupported(f'truth of {v.kind}')
         if isinstance(v, SStr):
             return bool(v.parts)
+        if isinstance(v, OutLog):
+            return True
         if isinstance(v, (Obj, PyClass, PyFunc, Closure, Bound, Builtin)):
             return True
         if isinstance(v, NotImpl):
@@ -504,7 +510,9 @@ class Interp:
                 return self.pat_eq(a, b)
             if a.kind in ('int', 'name') and b.kind in ('int', 'name'):
                 return SV(a.t == b.t, 'bool')
-            if a.kind == b.kind and a.kind in ('bool', 'idl', 'pmap', 'intset', 'char', 'str', 'intlist'):
+            if a.kind == 'plist' and b.kind == 'plist':
+                return SV(spec.ex_stack(a.t) == spec.ex_stack(b.t), 'bool')
+            if a.kind == b.kind and a.kind in ('bool', 'idl', 'pmap', 'intset', 'char', 'str', 'intlist', 'bytes'):
                 if a.kind == 'pmap':
                     return SV(spec.expandmap(a.t) == spec.expandmap(b.t), 'bool')
                 return SV(a.t == b.t, 'bool')
@@ -523,6 +531,8 @@ class Interp:
                 return SV(s.t == int(c), 'bool')
             if s.kind == 'bool' and isinstance(c, bool):
                 return SV(s.t == c, 'bool')
+            if s.kind == 'plist' and isinstance(c, (tuple, list)):
+                return SV(spec.ex_stack(s.t) == spec.ex_stack(self.plist_of(c)), 'bool')
             if s.kind == 'idl' and isinstance(c, (tuple, list)):
                 return SV(s.t == self.as_idl(c, s.meta or 'EVar'), 'bool')
             if s.kind == 'pmap' and isinstance(c, dict):
@@ -1081,6 +1091,26 @@ class Interp:
 
     def unpack_sv(self, elts, v, env, module, fn):
         """`first, *rest = s` for a symbolic string / list"""
+        if v.kind == 'plist' and elts and isinstance(elts[0], ast.Starred) and not any(isinstance(e, ast.Starred) for e in elts[1:]):
+            # *rest, a, b = stack : the trailing names take the LAST elements
+            cur = v.t
+            vals = []
+            for _ in elts[1:]:
+                if not self.ctx.branch(PTLs.is_('ptcons', cur), 'enough elements'):
+                    raise SymRaise('ValueError', 'not enough values to unpack')
+                vals.append(PTLs.get('ptcons', 'pthd', cur))
+                cur = PTLs.get('ptcons', 'pttl', cur)
+            for e, t in zip(reversed(elts[1:]), vals):
+                self.assign(e, self.from_pterm(t), env, module, fn)
+            self.assign(elts[0].value, SV(cur, 'plist'), env, module, fn)
+            return True
+        if v.kind == 'pclaims' and len(elts) == 2 and isinstance(elts[1], ast.Starred):
+            if not self.ctx.branch(PCLs.is_('pccons', v.t), 'a claim is left'):
+                raise SymRaise('ValueError', 'not enough values to unpack')
+            claim = Obj(self.repo.cls('proof_generation.claim', 'Claim'), {'pattern': SV(PCLs.get('pccons', 'pchd', v.t), 'ppat')})
+            self.assign(elts[0], claim, env, module, fn)
+            self.assign(elts[1].value, SV(PCLs.get('pccons', 'pctl', v.t), 'pclaims'), env, module, fn)
+            return True
         if v.kind in ('str', 'intlist') and len(elts) == 2 and isinstance(elts[1], ast.Starred) and not isinstance(elts[0], ast.Starred):
             if not self.ctx.branch(z3.Not(IDL.is_('inil', v.t)), 'non-empty'):
                 raise SymRaise('ValueError', 'not enough values to unpack')
@@ -1135,7 +1165,11 @@ class Interp:
         out = []
         for x in elts:
             if isinstance(x, ast.Starred):
-                out.extend(self.iterate(self.eval(x.value, env, module, fn)))
+                sv = self.eval(x.value, env, module, fn)
+                if isinstance(sv, SV) and sv.kind in ('idl', 'intlist'):
+                    out.append(sv)        # a symbolic-length piece (only bytes([...]) consumes such displays)
+                    continue
+                out.extend(self.iterate(sv))
             else:
                 out.append(self.eval(x, env, module, fn))
         return out
@@ -1246,6 +1280,34 @@ class Interp:
         except TypeError as ex:
             raise Unsupported(f'binop {type(op).__name__} on {l!r}, {r!r}') from ex
 
+    # ---- python list[Pattern | Proved] <-> PTL ----------------------------------------------------------------------------------
+    def to_pterm(self, v):
+        if isinstance(v, SV) and v.kind == 'ppat':
+            return PTR.mk('PyPat', v.t)
+        if isinstance(v, Obj) and v.cls is not None and v.cls.name == 'Proved' and isinstance(v.attrs.get('conclusion'), SV):
+            return PTR.mk('PyPrf', v.attrs['conclusion'].t)
+        if isinstance(v, SV) and v.kind == 'pterm':
+            return v.t
+        raise Unsupported(f'list element {v!r}')
+
+    def from_pterm(self, t):
+        t = self.ctx.nz(t)
+        if self.ctx.branch(PTR.is_('PyPat', t), 'element is a Pattern'):
+            return SV(z3.simplify(PTR.get('PyPat', 'pypat', t)) if ctor_of(t) else PTR.get('PyPat', 'pypat', t), 'ppat')
+        c = PTR.get('PyPrf', 'pyprf', t)
+        return Obj(self.repo.cls('proof_generation.proved', 'Proved'), {'conclusion': SV(z3.simplify(c) if ctor_of(t) else c, 'ppat')})
+
+    def plist_of(self, v):
+        """term of a python list value (symbolic list, or a concrete list of patterns / Proved objects)"""
+        if isinstance(v, SV) and v.kind == 'plist':
+            return v.t
+        if isinstance(v, (list, tuple)):
+            r = PTLs.mk('ptnil')
+            for x in v:
+                r = PTLs.mk('ptcons', self.to_pterm(x), r)
+            return r
+        raise Unsupported(f'expected list of terms, got {v!r}')
+
     def as_str_term(self, v):
         if isinstance(v, str):
             return idl(*[ord(c) for c in v])
@@ -1318,6 +1380,8 @@ class Interp:
                 return SV(spec.mem(self.as_int(item), container.t), 'bool')
             if container.kind == 'pmap':
                 return SV(spec.phas(container.t, self.as_int(item)), 'bool')
+            if container.kind == 'plist':
+                return SV(spec.tl_has(spec.ex_mem(container.t), spec.ex_term(self.to_pterm(item))), 'bool')
             if container.kind == 'intset':
                 return SV(z3.IsMember(self.as_int(item), container.t), 'bool')
             raise Unsupported(f'`in` on {container.kind}')
@@ -1340,6 +1404,19 @@ class Interp:
         if isinstance(e.slice, ast.Slice):
             lo = self.eval(e.slice.lower, env, module, fn) if e.slice.lower is not None else None
             hi = self.eval(e.slice.upper, env, module, fn) if e.slice.upper is not None else None
+            if isinstance(o, SV) and o.kind == 'plist':
+                # stack[-n:] / stack[:-n] with n = len(delta): CPython semantics incl. n == 0 ([-0:] is the whole list, [:-0] is empty)
+                if hi is None and lo is not None:
+                    n = z3.simplify(-self.as_int(lo))
+                    if self.ctx.branch(n == 0, 'slice bound is -0'):
+                        return o
+                    return SV(spec.ptl_lastn(o.t, n), 'plist')
+                if lo is None and hi is not None:
+                    n = z3.simplify(-self.as_int(hi))
+                    if self.ctx.branch(n == 0, 'slice bound is -0'):
+                        return SV(PTLs.mk('ptnil'), 'plist')
+                    return SV(spec.ptl_dropn(o.t, n), 'plist')
+                raise Unsupported('slice of a symbolic list')
             if isinstance(o, (list, tuple, str)) and not isinstance(lo, SV) and not isinstance(hi, SV):
                 return o[lo:hi]
             if isinstance(o, SStr):
@@ -1349,6 +1426,21 @@ class Interp:
         return self.getitem(o, k)
 
     def getitem(self, o, k):
+        if isinstance(o, SV) and o.kind == 'plist':
+            if isinstance(k, int) and k < 0:
+                cur = o.t
+                for _ in range(-k - 1):
+                    if not self.ctx.branch(PTLs.is_('ptcons', cur), 'index in range'):
+                        raise SymRaise('IndexError')
+                    cur = PTLs.get('ptcons', 'pttl', cur)
+                if not self.ctx.branch(PTLs.is_('ptcons', cur), 'index in range'):
+                    raise SymRaise('IndexError')
+                return self.from_pterm(PTLs.get('ptcons', 'pthd', cur))
+            # index from the front: through the machine-side view of the memory
+            i = self.as_int(k)
+            if not self.ctx.branch(z3.And(i >= 0, i < spec.ptl_len(o.t)), 'index in range'):
+                raise SymRaise('IndexError')
+            return SV(PTR_NTH(o.t, i), 'pterm')
         if isinstance(o, SV) and o.kind == 'pmap':
             ki = self.as_int(k)
             if not self.ctx.branch(spec.phas(o.t, ki), 'key present'):
@@ -1433,7 +1525,7 @@ class Interp:
             return Bound(o.selfv, m)
         if isinstance(o, SV):
             return _SVMethod(o, name)
-        if isinstance(o, (dict, list, tuple, str, set, frozenset, SStr)):
+        if isinstance(o, (dict, list, tuple, str, set, frozenset, SStr, OutLog)):
             return _SVMethod(o, name)
         if isinstance(o, _Enum):
             return o.member(name)
@@ -1452,14 +1544,28 @@ class Interp:
             return _Super(selfv, cls)
         if isinstance(e.func, ast.Attribute) and e.func.attr == 'append' and len(e.args) == 1 and isinstance(e.func.value, (ast.Name, ast.Attribute)):
             cur = self.eval(e.func.value, env, module, fn)
-            if isinstance(cur, SV) and cur.kind == 'intlist':
+            if isinstance(cur, SV) and cur.kind in ('intlist', 'plist'):
                 x = self.eval(e.args[0], env, module, fn)
-                new = SV(spec.il_snoc(cur.t, self.as_int(x)), 'intlist')
+                if cur.kind == 'plist':
+                    new = SV(PTLs.mk('ptcons', self.to_pterm(x), cur.t), 'plist')
+                else:
+                    new = SV(spec.il_snoc(cur.t, self.as_int(x)), 'intlist')
                 import copy as _copy
                 tgt = _copy.copy(e.func.value)
                 tgt.ctx = ast.Store()
                 self.assign(tgt, new, env, module, fn)
                 return None
+        if isinstance(e.func, ast.Attribute) and e.func.attr == 'pop' and not e.args and isinstance(e.func.value, (ast.Name, ast.Attribute)):
+            cur = self.eval(e.func.value, env, module, fn)
+            if isinstance(cur, SV) and cur.kind == 'plist':
+                if not self.ctx.branch(PTLs.is_('ptcons', cur.t), 'pop from non-empty list'):
+                    raise SymRaise('IndexError', 'pop from empty list')
+                import copy as _copy
+                tgt = _copy.copy(e.func.value)
+                tgt.ctx = ast.Store()
+                top = PTLs.get('ptcons', 'pthd', cur.t)
+                self.assign(tgt, SV(PTLs.get('ptcons', 'pttl', cur.t), 'plist'), env, module, fn)
+                return self.from_pterm(top)
         f = self.eval(e.func, env, module, fn)
         args = []
         for a in e.args:
@@ -1488,6 +1594,13 @@ class Interp:
             raise Unsupported('super() outside method')
 
     def e_ListComp(self, e, env, module, fn):
+        if len(e.generators) == 1 and not e.generators[0].ifs and isinstance(e.generators[0].target, ast.Name):
+            g = e.generators[0]
+            it = self.eval(g.iter, env, module, fn)
+            if isinstance(it, SV) and it.kind == 'idl':
+                if isinstance(e.elt, ast.Attribute) and e.elt.attr == 'name' and isinstance(e.elt.value, ast.Name) and e.elt.value.id == g.target.id:
+                    return SV(it.t, 'idl')
+                raise Unsupported('comprehension over a symbolic tuple')
         return list(self.comp(e, env, module, fn, lambda en: self.eval(e.elt, en, module, fn)))
 
     def e_GeneratorExp(self, e, env, module, fn):
@@ -1783,6 +1896,17 @@ class _SVMethod:
             o = SV(it_as_set(it, o), 'intset')
         if isinstance(o, (set, frozenset)) and n == 'add':
             raise Unsupported('in-place set.add')
+        if isinstance(o, SV) and o.kind == 'plist' and n == 'index':
+            t = spec.ex_term(it.to_pterm(args[0]))
+            m = spec.ex_mem(o.t)
+            if not it.ctx.branch(spec.tl_has(m, t), 'element present'):
+                raise SymRaise('ValueError', 'not in list')
+            return SV(spec.tl_index(m, t), 'int')
+        if isinstance(o, OutLog) and n == 'write':
+            o.chunks.append(args[0])
+            return None
+        if isinstance(o, OutLog) and n == 'close':
+            return None
         if isinstance(o, SV) and o.kind == 'char' and n == 'isspace':
             return SV(ISSPACE(o.t), 'bool')
         if isinstance(o, SV) and o.kind == 'intlist' and n == 'append':
@@ -1865,7 +1989,16 @@ class _SVMethod:
         raise Unsupported(f'method {n} on {type(o).__name__}')
 
 
+PTR_NTH = z3.Function('ptl_nth_front', PTL, Int, PTerm)   # element at index i from the front (only its machine-side view is constrained)
 ISSPACE = z3.Function('isspace', Int, Bool)    # str.isspace on one character (uninterpreted: the spec uses the same predicate)
+
+
+class OutLog:
+    """an output stream: the sequence of chunks written so far"""
+
+    def __init__(self, name='out'):
+        self.name = name
+        self.chunks = []
 
 
 class _MapView:
@@ -1893,6 +2026,19 @@ def _b_isinstance(it, args, kw):
 
 def _b_len(it, args, kw):
     v = args[0]
+    if isinstance(v, SV):
+        f = {'pmap': spec.pm_len, 'plist': spec.ptl_len, 'idl': spec.il_len, 'intlist': spec.il_len, 'str': spec.il_len, 'bytes': spec.il_len}.get(v.kind)
+        if f is not None:
+            n = f(v.t)
+            if v.kind == 'pmap':
+                nil = PMp.is_('pnil', v.t)
+            elif v.kind == 'plist':
+                nil = PTLs.is_('ptnil', v.t)
+            else:
+                nil = IDL.is_('inil', v.t)
+            lname = {'pmap': 'pm_len_zero', 'plist': 'ptl_len_zero'}.get(v.kind, 'il_len_zero')
+            it.ctx.lemma_fact(lname, z3.And(n >= 0, (n == 0) == nil))
+            return SV(n, 'int')
     if isinstance(v, (tuple, list, dict, str, set, frozenset)):
         return len(v)
     if isinstance(v, _Iter):
@@ -1905,8 +2051,10 @@ def _b_tuple(it, args, kw):
 
 
 def _b_list(it, args, kw):
-    if args and isinstance(args[0], SV) and args[0].kind in ('str', 'intlist'):
+    if args and isinstance(args[0], SV) and args[0].kind in ('str', 'intlist', 'plist'):
         return args[0]
+    if args and isinstance(args[0], _MapView) and args[0].which == 'values' and ctor_of(it.ctx.nz(args[0].m.t)) is None:
+        return SV(spec.pm_values(args[0].m.t), 'plist')
     return list(it.iterate(args[0])) if args else []
 
 
@@ -1985,6 +2133,8 @@ def _b_range(it, args, kw):
 
 def _b_reversed(it, args, kw):
     v = args[0]
+    if isinstance(v, _MapView) and v.which == 'keys' and ctor_of(it.ctx.nz(v.m.t)) is None:
+        return SV(spec.pm_keys_rev(v.m.t), 'idl')
     if isinstance(v, SV) and v.kind in ('str', 'intlist'):
         from . import mmnum
         return SV(mmnum.rev_acc(v.t, IDL.mk('inil')), v.kind)
@@ -2047,6 +2197,41 @@ def _b_max(it, args, kw):
     return max(xs)
 
 
+def _b_bytes(it, args, kw):
+    """bytes([...]): ValueError unless every element is in range(256)"""
+    xs = args[0] if args else []
+    if isinstance(xs, SV) and xs.kind in ('idl', 'intlist'):
+        pieces = [xs]
+    elif isinstance(xs, (list, tuple)):
+        pieces = list(xs)
+    else:
+        raise Unsupported(f'bytes({xs!r})')
+    term = IDL.mk('inil')
+    conds = []
+    for p in reversed(pieces):
+        if isinstance(p, SV) and p.kind in ('idl', 'intlist'):
+            conds.append(spec.il_allbytes(p.t))
+            term = spec.il_cat(p.t, term)
+        else:
+            x = p.value if isinstance(p, _EnumVal) else p
+            zx = it.as_int(x)
+            if not isinstance(x, int):
+                conds.append(z3.And(zx >= 0, zx <= 255))
+            elif not (0 <= x <= 255):
+                raise SymRaise('ValueError', 'bytes must be in range(0, 256)')
+            term = IDL.mk('icons', zx, term)
+    if conds and not it.ctx.branch(z3.And(*conds), 'all bytes in range'):
+        raise SymRaise('ValueError', 'bytes must be in range(0, 256)')
+    return SV(term, 'bytes')
+
+
+def _b_sum(it, args, kw):
+    xs = it.iterate(args[0])
+    if any(isinstance(x, SV) for x in xs):
+        return SV(z3.Sum(*[it.as_int(x) for x in xs]) if xs else z3.IntVal(0), 'int')
+    return sum(xs)
+
+
 def _b_print(it, args, kw):
     return None
 
@@ -2070,7 +2255,7 @@ BUILTINS = {n: Builtin(n, f) for n, f in {
     'isinstance': _b_isinstance, 'len': _b_len, 'tuple': _b_tuple, 'list': _b_list, 'set': _b_set, 'dict': _b_dict,
     'enumerate': _b_enumerate, 'sorted': _b_sorted, 'vars': _b_vars, 'any': _b_any, 'all': _b_all, 'range': _b_range,
     'reversed': _b_reversed, 'zip': _b_zip, 'str': _b_str, 'repr': _b_str, 'max': _b_max, 'print': _b_print, 'type': _b_type,
-    'frozenset': _b_set, 'pow': _b_pow,
+    'frozenset': _b_set, 'pow': _b_pow, 'bytes': _b_bytes, 'sum': _b_sum,
 }.items()}
 for _n in ('int', 'bool', 'bytes', 'min', 'sum', 'map', 'open', 'hash', 'id', 'getattr', 'setattr', 'hasattr', 'iter', 'next'):
     BUILTINS.setdefault(_n, Builtin(_n, _b_id(_n)))
